@@ -294,6 +294,36 @@ def _alpha_chunk(params, lo, hi):
     return r
 
 
+def _cover5_chunk(params, lo, hi):
+    """five binaries (rows x_j <= 1) and one covering row w.x >= K with weights over {1,2,5}, costs over {1,2,3},
+    K in {4,6,8}, all integer, minimise: node LPs whose bound is an integer reached through fifths (rounding residue on an
+    integral bound). params = (first cost code, number of cost codes): index = ((w_code*3 + k)*ncost + c)*2 + heuristics"""
+    c0, ncost = params
+    r = new_result()
+    geo = None
+    gkey = None
+    for idx in range(lo, hi):
+        heur = idx % 2 == 0
+        k = idx // 2
+        c = [(1, 2, 3)[d] for d in digits(c0 + k % ncost, 3, 5)]
+        k //= ncost
+        K = (4, 6, 8)[k % 3]
+        w = [(1, 2, 5)[d] for d in digits(k // 3, 3, 5)]
+        A = [[1 if a == j else 0 for a in range(5)] for j in range(5)] + [[-x for x in w]]
+        b = [1] * 5 + [-K]
+        if (tuple(w), K) != gkey:
+            geo = Geometry(A, b, 5)
+            gkey = (tuple(w), K)
+        kw = {} if heur else {"heuristics": False}
+        errs, label, nt = judge(geo, c, (0, 1, 2, 3, 4), True, kw)
+        wit = {"c": c, "A": A, "b": b, "integers": [0, 1, 2, 3, 4], "minimize": True, "config": kw}
+        _rec(r, errs, label, nt, wit, f"solve_milp(c={c}, A={A}, b={b}, integers=[0, 1, 2, 3, 4], minimize=True, {kw})")
+        if len(r["violations"]) >= 40 or too_many_hangs():
+            r["capped"] = True
+            break
+    return r
+
+
 def _binary_chunk(params, lo, hi):
     """3 variables, rows x_j<=1 (j=0..2) + one general row a.x<=b0 (+ optionally a second); all integer.
     index = ((a_code*4 + b0)*64 + c_code)*2 + minimize ; second row from params"""
@@ -451,6 +481,11 @@ def jobs(tier, seed):
     th = ((-3, 0, 2, 3), (-2, 1, 6, 7), (-3, -1, 2)) if tier == "quick" else ((-3, -1, 0, 2, 3), (-2, 0, 1, 6, 7), (-3, -1, 0, 2))
     js.append(Job("milp_2v2r_thirds", len(th[0]) ** 4 * len(th[1]) ** 2 * len(th[2]) ** 2 * 8, _alpha_chunk, th, describe=f"2 variables, 2 rows, A over {th[0]}, b over {th[1]}, c over {th[2]}, integer subsets, min/max, heuristics on/off: entries 3/-3 give node LPs with thirds (rounding residue)"))
     js.append(Job("call_history_pairs", 64 * 64 * len(PAIR_B) * len(PAIR_CFGS) * 2, _pair_chunk, None, describe="the binary 3-variable model solved with one right-hand side, then with another under the same LNS seed / warm start; the second answer is judged on its own"))
+    if tier == "thorough":
+        js.append(Job("binary5_covering_row", 243 * 3 * 243 * 2, _cover5_chunk, (0, 243), describe="5 binaries, one covering row with weights over {1,2,5}, costs over {1,2,3}, K in {4,6,8}, heuristics on/off"))
+    else:
+        bb = seed % 9
+        js.append(Job(f"binary5_covering_row_costblock{bb}of9", 243 * 3 * 27 * 2, _cover5_chunk, (bb * 27, 27), describe="5 binaries, one covering row with every weight vector over {1,2,5} and K in {4,6,8}; costs over {1,2,3}: rotating 1/9 block of the cost vectors (VERIF_SEED); heuristics on/off"))
     js.append(Job("binary3_one_row", 64 * 4 * 64 * 2, _binary_chunk, None, describe="3 variables with explicit x_j<=1 rows + one general row; all-integer and mixed; rounding heuristic, LNS seeds, limits, warm starts"))
     js.append(Job("binary3_two_rows", 64 * 4 * 64 * 2, _binary_chunk, ((1, 1, 1), 2), describe="same with an extra cardinality row x0+x1+x2<=2"))
     na = 3 if tier == "thorough" else 1
